@@ -425,6 +425,8 @@ def canon(e):
         return f"{canon(e[1])}({', '.join(canon(a) for a in e[2])})"
     if k == "tuple":
         return "(" + ", ".join(canon(a) for a in e[1]) + ")"
+    if k == "cast":
+        return f"{canon(e[1])} as {e[2][0]}"
     return "?"
 
 
@@ -587,6 +589,15 @@ IDTYPES = {"EdgeId", "VertexId"}
 STRUCTS = {
     "Edge": dict(lean="Nat", fields={"edge_id": ("", ("EdgeId", []))}),
     # the model's `Int × Option Int`: (arrival heading, optional departure heading)
+    # `VehicleParams α` of Model/Instance.lean; `number_of_axles` is held as the number `number_of_axles as f64`
+    "VehicleParameters": dict(lean="(VehicleParams α)", poly=True, imp="Compass.Model.Instance",
+                              file=APP + "/app/compass/config/frontier_model/vehicle_restrictions/vehicle_parameters.rs",
+                              fields={"height": (".height", ("(tuple)", [("Distance", []), ("DistanceUnit", [])])),
+                                      "width": (".width", ("(tuple)", [("Distance", []), ("DistanceUnit", [])])),
+                                      "total_length": (".totalLength", ("(tuple)", [("Distance", []), ("DistanceUnit", [])])),
+                                      "trailer_length": (".trailerLength", ("(tuple)", [("Distance", []), ("DistanceUnit", [])])),
+                                      "total_weight": (".totalWeight", ("(tuple)", [("Weight", []), ("WeightUnit", [])])),
+                                      "number_of_axles": (None, ("u8", []))}),
     "EdgeHeading": dict(lean="(Int × Option Int)", file=CORE + "/model/access/default/turn_delays/edge_heading.rs",
                         fields={"arrival_heading": (".1", ("i16", [])), "departure_heading": (".2", ("Option", [("i16", [])]))}),
 }
@@ -649,6 +660,10 @@ FUNCS = [
     dict(file=CORE + "/model/access/default/turn_delays/edge_heading.rs", impl="EdgeHeading", fn="start_heading", owner="C03"),
     dict(file=CORE + "/model/access/default/turn_delays/edge_heading.rs", impl="EdgeHeading", fn="end_heading", owner="C03"),
     dict(file=CORE + "/model/access/default/turn_delays/edge_heading.rs", impl="EdgeHeading", fn="bearing_to_destination", owner="C03"),
+    # the model's `Restriction` is shaped differently (weight per-axle flag / length selector): one definition per arm
+    dict(file=APP + "/app/compass/config/frontier_model/vehicle_restrictions/vehicle_restriction.rs", impl="VehicleRestriction",
+         fn="valid", owner="C04", arms=True,
+         externs={"vehicle_parameters.number_of_axles as f64": ("vehicle_parameters.axles", "f64")}),
     dict(file=PT + "/routee/vehicle/vehicle_ops.rs", impl=None, fn="as_soc_percent", owner="C08"),
     dict(file=PT + "/routee/vehicle/vehicle_ops.rs", impl=None, fn="soc_from_battery_and_delta", owner="C08"),
 ]
@@ -782,7 +797,12 @@ class Ctx:
         if t[0] == "Map":
             return f"(List ({self.lean_type(t[1])} × {self.lean_type(t[2])}))"
         if t[0] == "Struct":
-            return STRUCTS[t[1]]["lean"]
+            st = STRUCTS[t[1]]
+            if st.get("imp"):
+                self.imports.add(st["imp"])
+            if st.get("poly"):
+                self.uses_alpha = True
+            return st["lean"]
         if t[0] == "Prod":
             return "(" + " × ".join(self.lean_type(x) for x in t[1]) + ")"
         if t[0] in ("Opt", "Option"):
@@ -940,6 +960,8 @@ class Ctx:
             if t[0] == "Struct" and e[2] in STRUCTS[t[1]]["fields"]:
                 self.struct_decl(t[1])
                 suffix, ft = STRUCTS[t[1]]["fields"][e[2]]
+                if suffix is None:
+                    refuse(f"field {e[2]} of {t[1]} is not held by the model as such")
                 return x + suffix, self.conv_type(ft)
             refuse(f"field .{e[2]} of {t}")
         if k == "tuple" and len(e[1]) >= 2:
@@ -1461,6 +1483,42 @@ class Ctx:
         return self.wrap(g, x)
 
     # --- a whole function
+    def translate_arms(self, toks, body, env):
+        """`match self { Enum::V(pat) => body, … }` over an enum the model shapes differently: one definition per
+        variant, `<Enum>_<fn>_<Variant> (arg0 : field type) … (the function's parameters)`"""
+        if not (body[0] == "block" and all(st[0] == "use" for st in body[1]) and body[2] is not None
+                and body[2][0] == "match" and canon(body[2][1]).lstrip("*&") == "self"):
+            refuse("arms mode: the body is not a single match on self")
+        decl = parse_enum(toks, self.impl)
+        arms = {}
+        for p, b in body[2][2]:
+            if p[0] not in ("path", "tstruct") or len(p[1]) != 2 or self.aliases.get(p[1][0], p[1][0]) != self.impl:
+                refuse("arms mode: arm pattern")
+            if p[1][1] in arms or p[1][1] not in decl:
+                refuse(f"arms mode: arm {p[1][1]}")
+            arms[p[1][1]] = (p, b)
+        if set(arms) != set(decl):
+            refuse("arms mode: the arms are not exactly the declared variants")
+        psig = "".join(f" ({self.name(n)} : {self.lean_type(t)})" for n, t in self.params if t is not None)
+        out = ""
+        for v in decl:
+            p, b = arms[v]
+            subpats = p[2] if p[0] == "tstruct" else []
+            if len(subpats) != len(decl[v]) or any(not f.isdigit() for f, _ in decl[v]):
+                refuse(f"arms mode: pattern of {v}")
+            env2 = dict(env)
+            sig, lets = "", ""
+            for i, ((_, ft), q) in enumerate(zip(decl[v], subpats)):
+                t = self.conv_type(ft)
+                sig += f" (arg{i} : {self.lean_type(t)})"
+                lets += f"let {self.bind_pat(q, t, env2)} := arg{i}; "
+            text = self.tail(b, env2)
+            if self.guards or self.aux:
+                refuse("arms mode: partial operations / folds")
+            out += (f"/-- the `{v}` arm of `{self.impl}::{self.fn}` as it stands in `{self.cfg['file']}` -/\n"
+                    f"def {self.lean_name}_{v}{sig}{psig} : {self.lean_type(self.ret)} :=\n  ({lets}{text})\n\n")
+        return out
+
     def translate(self):
         path = os.path.join(self.repo, self.cfg["file"])
         with open(path) as f:
@@ -1480,6 +1538,8 @@ class Ctx:
                 self.struct_decl(self.impl)
                 env["self"] = ("Struct", self.impl)
                 sig += f" (self : {self.lean_type(('Struct', self.impl))})"
+            elif self.cfg.get("arms"):
+                pass
             elif self.impl not in ENUMS:
                 refuse("self of a type that is not a configured enum or struct")
             else:
@@ -1492,6 +1552,8 @@ class Ctx:
             for st in body[1]:
                 self.aliases[st[2]] = st[1][-1]
             self.top_arms = body[2][2]
+        if self.cfg.get("arms"):
+            return self.translate_arms(toks, body, env)
         text = self.tail(body, env)
         if self.guards:
             refuse("internal: guards left over")
